@@ -149,6 +149,10 @@ alg_wrap_wrp(const jose_hook_alg_t *alg, jose_cfg_t *cfg, json_t *jwe,
     size_t ctl = 0;
     size_t kl = 0;
 
+    /* The IV and tag we generate would be shadowed. */
+    if (shared_hdr_has(jwe, "iv") || shared_hdr_has(jwe, "tag"))
+        return false;
+
     if (!json_object_get(cek, "k") && !jose_jwk_gen(cfg, cek))
         return false;
 
